@@ -5,8 +5,11 @@ the keep-alive connection is then closed with its request unread.
 
 Run:  cd /tmp/wa_C13 && PYTHONPATH=/tmp/wa_C13 /venv/bin/python _finding/1/demo.py
 """
+import os as _os
+_TREE_UNDER_TEST = _os.environ.get("GVERIF_REPO") or _os.getcwd()   # the checkout under test (was the auditing agent's scratch worktree)
+
 import sys
-sys.path.insert(0, "/tmp/wa_C13")
+sys.path.insert(0, _TREE_UNDER_TEST)
 
 import os
 import signal
@@ -16,7 +19,7 @@ import tempfile
 import time
 
 import gunicorn
-assert gunicorn.__file__.startswith("/tmp/wa_C13/"), gunicorn.__file__
+assert gunicorn.__file__.startswith(_TREE_UNDER_TEST), gunicorn.__file__
 
 KEEPALIVE = 6          # seconds
 THREADS = 1
@@ -61,7 +64,7 @@ def read_response(sock, timeout):
 
 
 def start_server(tmp, port):
-    env = dict(os.environ, PYTHONPATH="/tmp/wa_C13" + os.pathsep + tmp)
+    env = dict(os.environ, PYTHONPATH=_TREE_UNDER_TEST + os.pathsep + tmp)
     proc = subprocess.Popen(
         [sys.executable, "-m", "gunicorn", "-k", "gthread", "-w", "1",
          "--threads", str(THREADS),
@@ -69,7 +72,7 @@ def start_server(tmp, port):
          "--keep-alive", str(KEEPALIVE),
          "-b", "127.0.0.1:%d" % port, "--chdir", tmp,
          "--log-level", "warning", "demoapp:app"],
-        env=env, cwd="/tmp/wa_C13")
+        env=env, cwd=_TREE_UNDER_TEST)
     deadline = time.time() + 10
     while time.time() < deadline:
         try:
